@@ -49,6 +49,14 @@ CHECKS = {
               "parity xor sign. set_qubit_state: z3 NRA spec lemma + bounded emission check. Not claimed: an external state-vector back end."),
         technique="contract-based deductive verification: real toolbox/builder code executed to gate lists, exact cyclotomic operator identities (Kraus operators), z3 NRA lemma; bounded emission sampling for set_qubit_state",
         design_ref="5.C20"),
+    "C04": dict(
+        category="proof",
+        text=("Per-handler contract view(executor') == isa.step(view(executor), instr) for every classical/allocation instruction and the gate dispatch, "
+              "over an arbitrary symbolic pre-state (symbolic register file, arrays of symbolic length at symbolic addresses, symbolic unit module and in-use "
+              "set under the representation invariant) and arbitrary operands; fault <=> fault with no partial effect; other application untouched; fetch loop "
+              "by loop contract (fetches commands[pc], stops at the fault, error starts with 'At line <pc>'). Termination/step bound not claimed."),
+        technique="contract-based deductive verification: function-against-spec-function per instruction handler on symbolic executor states (z3 arrays + LIA + quantified invariant), loop contract for the fetch loop",
+        design_ref="5.C04"),
     "C19": dict(
         category="proof",
         text=("Loop-invariant proof of get_angle_spec_from_float over the reals for every angle and every tolerance in [1e-9, 1]: the real loop "
